@@ -284,7 +284,7 @@ def run(ctx, rep):
             if e[0] == "discr" and e[1][0] == "call" and e[1][1].endswith("ConfigFile::chunker"):
                 for v, x in t["targets"]:
                     built.add(prog.variant_by_discr("repofile::configfile::Chunker", v))
-    rep.floor("C18.e", "chunker variants constructed by from_config", len(built), 2)
+    rep.floor("C18.e", "chunker variants constructed by from_config", len(built), 1)
     # the switch on the effective chunker in apply (if any)
     chsw = []
     for bi in range(len(A.blocks)):
